@@ -243,11 +243,11 @@ class Check(core.PropertyCheck):
     def scenarios(self, ctx, models):
         rng = random.Random(ctx.seed + 52)
         g = models[0].graph
-        behs = _edge_cover_sample(g, rng, 8, 3, 2200 if ctx.quick else None)
+        behs = _edge_cover_sample(g, rng, 8, 3, 1800 if ctx.quick else None)
         ctx.notes["edge_cover_paths_replayed"] = len(behs)
         for b in behs:
             yield core.Scenario(self._from_behaviour(b, "small", rng), predicted=core.predicted_events(b), source="model")
-        sims, _ = ctx.simulate(self.MODEL, self._consts("full"), num=500 if ctx.quick else 12000, depth=8, timeout=1500)
+        sims, _ = ctx.simulate(self.MODEL, self._consts("full"), num=400 if ctx.quick else 12000, depth=8, timeout=1500)
         for b in sims:
             yield core.Scenario(self._from_behaviour(b, "full", rng), predicted=core.predicted_events(b), source="simulate")
         for i in range(300 if ctx.quick else 5000):
